@@ -61,8 +61,8 @@ func TakeSnap(root string) Snap {
 
 // DiffOpts selects what counts as a difference.
 type DiffOpts struct {
-	Inode      bool                   // compare inode numbers of files
-	FileMtime  bool                   // compare mtimes of regular files
+	Inode      bool                  // compare inode numbers of files
+	FileMtime  bool                  // compare mtimes of regular files
 	IgnorePath func(rel string) bool // paths to ignore entirely
 }
 
